@@ -219,6 +219,9 @@ impl Check for C13 {
         if cx.index % 8 == 7 {
             return node_case(cx);
         }
+        if cx.index % 64 == 5 {
+            concurrent_verification(cx);
+        }
         let kp = keypair(&mut cx.rng);
         let other = keypair(&mut cx.rng);
         let peer = PeerId::from(kp.public());
@@ -497,6 +500,57 @@ impl Check for C13 {
                     }
                 }
             }
+        }
+    }
+}
+
+/// Quotes are verified on many threads of a node at once (one validation task per upload): each thread verifies its own
+/// authentic quotes and altered copies of them; the answers must be those of the quote in hand, whatever the other
+/// threads verify at the same moment.
+fn concurrent_verification(cx: &mut Cx) {
+    use rand::SeedableRng;
+    let threads = cx.rng.gen_range(4..=8);
+    let seeds: Vec<u64> = (0..threads).map(|_| cx.rng.gen()).collect();
+    let handles: Vec<std::thread::JoinHandle<(u64, Vec<(String, String)>)>> = seeds
+        .into_iter()
+        .map(|seed| {
+            std::thread::spawn(move || {
+                let mut rng = rand::rngs::StdRng::seed_from_u64(seed);
+                let kp = keypair(&mut rng);
+                let other = keypair(&mut rng);
+                let peer = PeerId::from(kp.public());
+                let mut faults = vec![];
+                let mut done = 0u64;
+                for _ in 0..120 {
+                    let q = random_quote(&mut rng, &kp);
+                    if !q.check_is_signed_by_claimed_peer(peer) {
+                        faults.push(("concurrent:authentic-quote-rejected".to_string(), "an authentically signed quote did not verify for its signer while other threads were verifying".to_string()));
+                    }
+                    let mut m = q.clone();
+                    let f = rng.gen_range(0..11);
+                    let (label, must_fail) = mutate_field(&mut rng, &mut m, f, &other);
+                    // (must_fail is false for changes that are unsigned by design, e.g. below one second)
+                    if must_fail && m != q && m.check_is_signed_by_claimed_peer(peer) {
+                        faults.push((format!("concurrent:quote-verifies-after-mutation:{label}"), format!("an altered copy ({label}) verified while other threads were verifying")));
+                    }
+                    done += 2;
+                    if faults.len() > 10 {
+                        break;
+                    }
+                }
+                (done, faults)
+            })
+        })
+        .collect();
+    for h in handles {
+        match h.join() {
+            Ok((done, faults)) => {
+                cx.count_n("concurrent-verifications", done);
+                for (sig, d) in faults.into_iter().take(2) {
+                    cx.violation(sig, d, json!({"threads": threads}));
+                }
+            }
+            Err(_) => cx.violation("concurrent:verification-thread-died", "a verifying thread died".to_string(), json!({"threads": threads})),
         }
     }
 }
